@@ -29,6 +29,7 @@ def digests(prop, n, nproc):
         c["known"] = common.load_known().get("known", [])
         if prop == "C08":
             c["second_p"], c["kill_p"] = 0.02, 0.02
+            c["case_budget"] = 3000.0        # no wall-clock dependent skipping of crash states
         if prop == "C13":
             c["nmulti"] = 10
         cases.append(c)
